@@ -39,8 +39,9 @@ Definition eig_top_of n p (W : 'M[F]_n) (s : 'cV[F]_p) (V : 'M[F]_(n, p)) :=
 Definition eig_contract := forall n p (W : 'M[F]_n),
   sym W -> psd W -> (p <= \rank W)%N -> eig_top_of W (eigS p W) (eigV p W).
 
-(* reduced QR *)
-Definition qr_contract := forall n m k (C : 'M[F]_(n, m)),
+(* reduced QR: claimed only for k = min(n, m) columns (numpy's mode="reduced"); for any other k the two clauses can be
+   contradictory (k = 0 and C <> 0), and an unconditional contract would make the theorems that assume it vacuous *)
+Definition qr_contract := forall n m k (C : 'M[F]_(n, m)), k = minn n m ->
   qrQ k C *m qrR k C = C /\ (qrQ k C)^T *m qrQ k C = 1%:M.
 
 (* ---- small algebra ---- *)
@@ -229,6 +230,7 @@ Hypothesis psdK : psd Kuu.
 Hypothesis j_gt0 : 0 < j.
 Hypothesis eig_ok : eig_contract.
 Hypothesis qr_ok : qr_contract.
+Hypothesis kq_min : kq = minn n m.
 Hypothesis p_le : (p <= m)%N.
 
 Let a := Num.max (s ^+ 2) j.
@@ -274,7 +276,7 @@ have pr : (p <= \rank W)%N.
 have [q [sd [Vd [_ hW sd0 s0 [VV VdV _]]]]] := eig_ok sW pW pr.
 have [sM pM] := Mi_sym_psd s0.
 have [q2 [sd2 [Vd2 [_ hM sd20 s20 [VV2 VdV2 _]]]]] := eig_ok sM pM p1_le.
-have [QR QQ] := qr_ok kq Kxu.
+have [QR QQ] := qr_ok Kxu kq_min.
 have LL : L *m L^T = Q *m (eigV p1 Mi *m diagv (eigS p1 Mi) *m (eigV p1 Mi)^T) *m Q^T.
   rewrite /L modified_LE scaled_gram; last by move=> i; apply: ltW.
   by rewrite trmx_mul !mulmxA.
